@@ -4,7 +4,10 @@ use autosar_data_specification::{
 };
 use smallvec::SmallVec;
 use std::borrow::Cow;
+#[cfg(not(feature = "verif"))]
 use std::collections::HashSet;
+#[cfg(feature = "verif")]
+use crate::verif::DetSet as HashSet;
 use std::path::PathBuf;
 use std::str::FromStr;
 use std::str::Utf8Error;
